@@ -497,7 +497,7 @@ class World:
 # generation
 # ---------------------------------------------------------------------------------------------
 
-TARGETS = [None, None, "x", "y", "ns.a", "(p, *q)", "d[0]"]
+TARGETS = [None, None, "x", "y", "ns.a", "(p, *q)", "d[0]", "ns.get(None).owner"]
 
 
 class Gen:
@@ -690,7 +690,9 @@ def gen_program(rng: random.Random, kind: str, depth: int, probes: bool = False,
 
 
 class NS:
-    pass
+    def get(self, key):
+        """(for `as` targets that go through a call: `ns.get(None).owner`)"""
+        return self
 
 
 def run_program(src: str, kind: str, choices: List[int], observer: Callable[[World, str], None],
